@@ -593,7 +593,7 @@ func (C09) Explore(x *kernel.Explorer, seed uint64) {
 			plan.Ops = append(plan.Ops, kernel.Op{ID: j + 1, Kind: "row", A: []int64{int64(r.Intn(6))}})
 		}
 		for j := 0; j < 2+r.Intn(5); j++ {
-			plan.Ops = append(plan.Ops, kernel.Op{ID: 100 + j, Kind: "search", A: []int64{int64(r.Intn(9)), int64(r.Intn(8)), int64(r.Intn(2))}})
+			plan.Ops = append(plan.Ops, kernel.Op{ID: 100 + j, Kind: "search", A: []int64{int64(r.Intn(len(c09Values))), int64(r.Intn(8)), int64(r.Intn(2))}})
 		}
 		x.Exec(plan)
 	}
@@ -608,7 +608,9 @@ func c09Index(v string) int {
 	return 0
 }
 
-var c09Values = []string{"alpha-search-value", "alpha-search", "beta-search-value", "alpha-search-value2", "g", "delta value with spaces", "absent-value", "alpha", ""}
+var c09Values = []string{"alpha-search-value", "alpha-search", "beta-search-value", "alpha-search-value2", "g", "delta value with spaces", "absent-value", "alpha", "",
+	// searched only: values that differ from a stored one in trailing or leading blanks or in case
+	"alpha-search-value ", " alpha-search-value", "Alpha-search-value", "g ", "delta value with spaces  ", "alpha-search-value\t"}
 
 func (C09) Run(t *testing.T, plan *kernel.Plan, keepLog bool) *kernel.Result {
 	if plan.Sw("join") == 1 {
